@@ -5,8 +5,8 @@ import TensorModel.Proofs.Assemble
 
   * `concat_shape`, `stack_shape`, `repeat_shape`: the model of the shape calculators
     (`Shape.Concat`, the head of `StackDense`, `Shape.Repeat`) gives S's shape and refuses — with an
-    *error*, never a panic — exactly where S refuses. Each is `_partial` on an explicit `Excl_*`
-    region, with a `_full_fails` witness inside the region.
+    *error*, never a panic — exactly where S refuses. `concat_shape` is `_partial` on an explicit
+    `Excl_*` region, with a `_full_fails` witness inside the region.
   * `simpleStack_spec`: the block-copy kernels of `denseSimpleStack` (both the `case 0` and the
     `default` loop nest) on row-major listings of equally shaped operands produce exactly the element
     list of S's `stack`, for every rank and every axis position.
@@ -15,9 +15,9 @@ import TensorModel.Proofs.Assemble
   * `repeat_spec`: the `fastCopyDenseRepeat` loop nest (both the byte-broadcast shortcut and the
     general path) on the row-major listing of the source produces exactly the element list of S's
     `repeat`, for every rank, axis and count vector (zero counts included).
-  * `stack_axisStride`, `repeat_strides`, `repeat_params_partial`: the block lengths and loop bounds
-    the engine reads off the strides of row-major tensors are the ones the two theorems above are
-    stated for (`repeat_params` is partial on `Excl_repeatForcedStride` ⊇ F65).
+  * `stack_axisStride`, `repeat_params`: the block lengths and loop bounds the engine derives (from
+    the strides of the row-major stacked result; from the shapes for `Repeat`) are the ones the two
+    theorems above are stated for.
   * `stack_frame`, `repeat_frame`, `repeatReuse_frame`: these operations write nothing but the result
     (resp. reuse) buffer, whatever the operand layouts.
 
@@ -29,7 +29,7 @@ import TensorModel.Proofs.Assemble
     as a hypothesis on the offset lists (C05's theorem for well-formed access patterns) instead of
     deriving it from the operands' access patterns;
   * `concat_spec` (`denseConcat` through `Dense.slice` + `assignArray`) and the frame property of
-    `Concat` (false for masked operands: finding F69).
+    `Concat`.
 -/
 namespace TM.C10
 open TM TM.Asm
@@ -57,61 +57,20 @@ theorem concat_shape_full_fails : ¬ concat_shape_full := by
   have := e.symm.trans ht
   cases this
 
-/-- The shape computed by `StackDense` = shape of S's `stack`, refusing exactly when S refuses —
-    outside findings F60 (the other operands' shapes are never looked at) and F61 (negative axis). -/
-theorem stack_shape_partial (s : Shape) (axis : Int) (rest : List Shape)
-    (h60 : Excl_stackShapes (s :: rest) = false) (h61 : Excl_stackNegAxis axis = false) :
-    Agrees (stackNewShape s axis rest.length) (stackShape axis.toNat (s :: rest)) := by
-  apply stackNewShape_agrees
-  · simp only [Excl_stackShapes, List.any_eq_false, bne_iff_ne, ne_eq, Decidable.not_not] at h60
-    simp only [List.all_eq_true, beq_iff_eq]
-    exact h60
-  · simpa [Excl_stackNegAxis] using h61
-
-def stack_shape_full : Prop :=
-  ∀ (s : Shape) (axis : Int) (rest : List Shape),
-    Agrees (stackNewShape s axis rest.length) (stackShape axis.toNat (s :: rest))
-
-/-- F60: `(2,3)` stacked with `(3,2)`: accepted with shape `(2,2,3)`, S refuses. -/
-theorem stack_shape_full_fails : ¬ stack_shape_full := by
-  intro h
-  have := h [2, 3] 0 [[3, 2]]
-  obtain ⟨tag, ht⟩ := this
-  have e : stackNewShape [2, 3] 0 [[3, 2]].length = .ok [2, 2, 3] := rfl
-  have := e.symm.trans ht
-  cases this
-
-/-- F61: a negative axis is a panic, not an error. -/
-theorem stack_negAxis_panics (s : Shape) (n : Nat) : ∃ tag, stackNewShape s (-1) n = .error (.panic tag) := by
-  refine ⟨"newShape[axis]: index out of range", ?_⟩
-  unfold stackNewShape
-  have : ¬ ((-1 : Int) ≥ (s.length : Int) + 1) := by omega
-  simp only [this, if_false, show ((-1 : Int) < 0) by decide, if_true]
-  rfl
+/-- The head of `StackDense` (axis test, comparison of the operands' shapes, new shape) = shape of
+    S's `stack`, refusing — with an error: negative axis, axis past the rank, an operand of another
+    shape — exactly when S refuses. -/
+theorem stack_shape (s : Shape) (axis : Int) (rest : List Shape) :
+    Agrees (stackNewShape s axis rest) (if axis < 0 then none else stackShape axis.toNat (s :: rest)) :=
+  stackNewShape_agrees s axis rest
 
 /-- `Shape.Repeat` = shape of S's `repeat` wherever S has a verdict (rank ≥ 1, non-negative counts,
-    not the library's `(n)`-along-axis-1 extension), refusing exactly when S refuses — outside
-    finding F66 (axis < -1 indexes the shape: panic). -/
-theorem repeat_shape_partial (sh : Shape) (axis : Int) (reps : List Int) (hnn : ∀ d ∈ sh, 0 ≤ d)
-    (h66 : Excl_repeatNegAxis axis = false) (r : Option Shape)
-    (hS : specRepeatShape sh axis reps = some r) :
-    Agrees (Prod.fst <$> shapeRepeat sh axis reps) r := by
-  apply shapeRepeat_agrees sh axis reps hnn _ r hS
-  simp only [Excl_repeatNegAxis, decide_eq_false_iff_not] at h66
-  omega
-
-def repeat_shape_full : Prop :=
-  ∀ (sh : Shape) (axis : Int) (reps : List Int) (r : Option Shape), (∀ d ∈ sh, 0 ≤ d) →
-    specRepeatShape sh axis reps = some r → Agrees (Prod.fst <$> shapeRepeat sh axis reps) r
-
-/-- F66: `(2,3)` repeated along axis `-2`: S refuses, the calculator panics. -/
-theorem repeat_shape_full_fails : ¬ repeat_shape_full := by
-  intro h
-  have := h [2, 3] (-2) [2] none (by decide) (by decide)
-  obtain ⟨tag, ht⟩ := this
-  have e : Prod.fst <$> shapeRepeat [2, 3] (-2) [2] = .error (.panic "s[axis] out of range") := rfl
-  have := e.symm.trans ht
-  cases this
+    not the library's `(n)`-along-axis-1 extension), refusing — with an error, also for an axis below
+    `AllAxes` — exactly when S refuses. -/
+theorem repeat_shape (sh : Shape) (axis : Int) (reps : List Int) (hnn : ∀ d ∈ sh, 0 ≤ d)
+    (r : Option Shape) (hS : specRepeatShape sh axis reps = some r) :
+    Agrees (Prod.fst <$> shapeRepeat sh axis reps) r :=
+  shapeRepeat_agrees sh axis reps hnn r hS
 
 /-! ## refinement of the block-copy paths -/
 
@@ -121,70 +80,23 @@ theorem stack_axisStride (s : Shape) (k : Nat) (n : Int) (h : k ≤ s.length) :
     idx (calcStrides (insertAt s k n)) (k : Int) "strides[axis]" = .ok (prod (s.drop k)) :=
   Asm.stack_axisStride s k n h
 
-/-- `ostrides()[axis]` of a row-major source and of the row-major result of `Repeat` are both the
-    size of one block behind the axis: `∏ shape[axis+1:]`. -/
-theorem repeat_strides (sh : Shape) (k : Nat) (x : Int) (h : k < sh.length) :
-    (calcStrides sh)[k]? = some (prod (sh.drop (k + 1))) ∧
-    (calcStrides (sh.set k x))[k]? = some (prod (sh.drop (k + 1))) := by
-  refine ⟨calcStrides_getElem sh k h, ?_⟩
-  rw [calcStrides_getElem _ k (by simpa using h)]
-  congr 2
-  rw [List.set_eq_take_append_cons_drop, if_pos h, List.drop_append]
-  have h1 : (sh.take k).length = k := by simp; omega
-  simp [h1]
-
-/-- Region in which `denseRepeat` overrides the block length read off the strides: a vector-shaped
-    source or result (`if newShape.IsVector() || t.IsVector() { stride = 1 }`) whose true block length
-    `∏ shape[axis+1:]` is not 1. Finding F65 (`Excl_repeatVectorResult`) lies inside it; the rest of
-    it (a row vector `(1,n)` repeated ≥ 2 times along axis 0) is correct but only covered by the
-    harness. -/
-def Excl_repeatForcedStride (sh : Shape) (k : Nat) (x : Int) : Bool :=
-  (isVector (sh.set k x) || isVector sh) && prod (sh.drop (k + 1)) != 1
-
-/-- The loop bounds and block lengths `denseRepeat` derives for a row-major source and the row-major
-    result are the ones `repeat_spec` is stated for — outside `Excl_repeatForcedStride`. -/
-theorem repeat_params_partial (sh : Shape) (k : Nat) (x : Int) (hk : k < sh.length)
-    (hx : Excl_repeatForcedStride sh k x = false) :
-    repeatParams sh (sh.set k x) (calcStrides sh) (calcStrides (sh.set k x)) (k : Int) =
+/-- The loop bounds and block lengths of `denseRepeat` (`ProdInts(t.Shape()[0:axis])`,
+    `ProdInts(newShape[axis+1:])`) are the ones `repeat_spec` is stated for: `∏ shape[:axis]` outer
+    passes over blocks of `∏ shape[axis+1:]` cells, whatever the counts sum to. -/
+theorem repeat_params (sh : Shape) (k : Nat) (x : Int) (hk : k < sh.length) :
+    repeatParams sh (sh.set k x) (k : Int) =
       .ok (prod (sh.take k), prod (sh.drop (k + 1)), prod (sh.drop (k + 1))) := by
-  obtain ⟨h1, h2⟩ := repeat_strides sh k x hk
   have hne : sh.isEmpty = false := by cases sh with | nil => simp at hk | cons _ _ => rfl
-  have hidx1 : idx (calcStrides sh) (k : Int) "t.ostrides()[axis]" = .ok (prod (sh.drop (k + 1))) := by
-    simp only [idx, getI?, show ¬ (k : Int) < 0 by omega, if_false, Int.toNat_natCast, h1]
-  have hidx2 : idx (calcStrides (sh.set k x)) (k : Int) "d.ostrides()[axis]" = .ok (prod (sh.drop (k + 1))) := by
-    simp only [idx, getI?, show ¬ (k : Int) < 0 by omega, if_false, Int.toNat_natCast, h2]
   have hax : ¬ ((k : Int) < 0 ∨ (k : Int) > (sh.length : Nat)) := by omega
-  simp only [repeatParams, hne, Bool.false_eq_true, if_false, Bool.or_eq_true, decide_eq_true_eq, hax,
-    Int.toNat_natCast, bind, Except.bind, pure, Except.pure, hidx1, hidx2]
-  simp only [Excl_repeatForcedStride, Bool.and_eq_false_iff, bne_eq_false_iff_eq] at hx
-  by_cases hv1 : isVector (sh.set k x) = true
-  · have hB : prod (sh.drop (k + 1)) = 1 := by
-      rcases hx with hx | hx
-      · simp [hv1] at hx
-      · exact hx
-    simp [hv1, hB]
-  · by_cases hv2 : isVector sh = true
-    · have hB : prod (sh.drop (k + 1)) = 1 := by
-        rcases hx with hx | hx
-        · simp [hv2] at hx
-        · exact hx
-      simp [hv1, hv2, hB]
-    · simp [hv1, hv2]
-
-/-- F65: a `(2,3)` matrix repeated along axis 0 with counts summing to 1 (result `(1,3)`): the block
-    length is forced to 1 although a row has 3 cells. -/
-theorem repeat_params_full_fails :
-    ¬ (∀ (sh : Shape) (k : Nat) (x : Int), k < sh.length →
-        repeatParams sh (sh.set k x) (calcStrides sh) (calcStrides (sh.set k x)) (k : Int) =
-          .ok (prod (sh.take k), prod (sh.drop (k + 1)), prod (sh.drop (k + 1)))) := by
-  intro h
-  have := h [2, 3] 0 1 (by decide)
-  have e : repeatParams [2, 3] ([2, 3].set 0 1) (calcStrides [2, 3]) (calcStrides ([2, 3].set 0 1)) ((0 : Nat) : Int) =
-      .ok (1, 1, 1) := rfl
-  have := e.symm.trans this
-  simp only [Except.ok.injEq, Prod.mk.injEq] at this
-  revert this
-  decide
+  have hax2 : ¬ ((k : Int) + 1 < 0 ∨ (k : Int) + 1 > ((sh.set k x).length : Nat)) := by
+    rw [List.length_set]; omega
+  have hto : ((k : Int) + 1).toNat = k + 1 := by omega
+  have hdrop : (sh.set k x).drop (k + 1) = sh.drop (k + 1) := by
+    rw [List.set_eq_take_append_cons_drop, if_pos hk, List.drop_append]
+    have h1 : (sh.take k).length = k := by simp; omega
+    simp [h1]
+  simp only [repeatParams, hne, Bool.false_eq_true, if_false, Bool.or_eq_true, decide_eq_true_eq, hax, hax2,
+    Int.toNat_natCast, hto, hdrop, bind, Except.bind, pure, Except.pure]
 
 /-- **Stacking, contiguous operands.** For operands of one shape `s` (every extent positive) given by
     their row-major listings, a new axis at any position `k ≤ rank`, and a destination of the right
@@ -348,7 +260,7 @@ theorem viewStack_spec (s : Shape) (as : List (LA Val)) (k : Nat) (dst : List Va
     row-major listing, an axis `k < rank`, one count per entry of the axis (zeros allowed) and a
     destination of the right size: S's `repeat` is defined, has shape `sh[k ↦ Σ counts]`, and its
     element list is what the `outers × size × repeats` loop nest of `fastCopyDenseRepeat` — called with
-    the block lengths `stride = newStride = ∏ sh[k+1:]` (`repeat_strides`) — leaves in the
+    the block lengths `stride = newStride = ∏ sh[k+1:]` (`repeat_params`) — leaves in the
     destination. -/
 theorem repeat_spec (sh : Shape) (k : Nat) (reps : List Nat) (e dst : List Val)
     (hpos : ∀ d ∈ sh, 0 < d) (hk : k < sh.length) (hr : reps.length = (sh[k]?.getD 0).toNat)
